@@ -81,6 +81,12 @@ def check_one(mode, pats, excl, flags, names, out, asts=None, stream='enum', ext
         with util.watchdog(5):
             inc_s, exc_s = mod.translate(pats, flags=flags, **kw)
             m = mod.compile(pats, flags=flags, **kw)
+            first = pats if isinstance(pats, (str, bytes)) else (pats[0] if pats else '')
+            wrong = [r for r in list(inc_s) + list(exc_s) if type(r) is not type(first)]
+            if wrong:
+                out.violation(dict(case, patterns=repr(pats), exclude=repr(excl), problem='translate returns a regex whose type is not the type of the patterns',
+                                   regex=repr(wrong[0])), bucket=('regex-type', mode))
+                return
             try:
                 inc = [re.compile(r) for r in inc_s]
                 exc = [re.compile(r) for r in exc_s]
@@ -259,6 +265,11 @@ def run_grid(desc):
                     table = util.FN_FLAGS if mode == 'fn' else util.GL_FLAGS
                     fl = util.flags_of([n for n in names if n in table], table)
                     check_one(mode, list(pats), ex, fl, GRID_NAMES, out, stream='grid')
+                    if idx % 3 == 0:
+                        # the same list as bytes (as a list, and as a tuple)
+                        enc = lambda x: None if x is None else (x.encode() if isinstance(x, str) else type(x)(y.encode() for y in x))
+                        bp = [p_.encode() for p_ in pats]
+                        check_one(mode, bp if idx % 2 else tuple(bp), enc(ex), fl, [n.encode() for n in GRID_NAMES], out, stream='grid-bytes')
     if s == 0:
         # character escapes that decode to list / brace / group metacharacters: translate() must decode where the matcher does
         raw_lists = [[r'*.py\x7c*.txt'], [r'\x7bfoo,bar\x7d.py'], [r'a\x7cb'], [r'\x21a', '*'], [r'\x2da', '*'], [r'\x2a'], [r'[\x61-\x63]'],
